@@ -611,6 +611,7 @@ func judge(c *vlib.Check, scs []*Scenario, kids []*child, hists []*history, st *
 	var live []*Scenario
 	var gates []map[string]any
 	crashes, handoffs, onePs, mmCrashes := 0, 0, 0, 0
+	var unreached []string // gate scenarios that did not get to their gate: an infrastructure problem - unless the code is broken
 	for _, s := range scs {
 		c.AddEvals(1)
 		byClass[s.Class]++
@@ -657,10 +658,10 @@ func judge(c *vlib.Check, scs []*Scenario, kids []*child, hists []*history, st *
 				onePs++
 			}
 			if s.Hold != "return" && !g.Held && !s.Crashed {
-				vlib.Infra("gate scenario %s never reached the call it was to hold (%s)", s.ID, s.Hold)
+				unreached = append(unreached, fmt.Sprintf("gate scenario %s never reached the call it was to hold (%s)", s.ID, s.Hold))
 			}
 		} else if s.Hold != "" && !s.Crashed {
-			vlib.Infra("gate scenario %s returned no gate observation", s.ID)
+			unreached = append(unreached, fmt.Sprintf("gate scenario %s returned no gate observation", s.ID))
 		}
 		if s.Crashed {
 			crashes++
@@ -689,9 +690,6 @@ func judge(c *vlib.Check, scs []*Scenario, kids []*child, hists []*history, st *
 	c.Set("server_crashes_unencodable_payload_in_ticker_flush", mmCrashes)
 	c.Set("gate_replays", gates)
 	c.Set("one_processor_handoffs_demonstrated", handoffs)
-	if onePs > 0 && handoffs == 0 && c.Violations() == 0 {
-		vlib.Infra("vacuous: in none of the one-processor slow-flush pairs was the parked keepAlive goroutine handed the mutex at the end of the second section (after_hold shows no immediate ping) - the forced schedule did not happen")
-	}
 
 	// TLC: strict first, then the deviation-tolerant configurations
 	strict := accepted(live, true, true, true, "strict", st)
@@ -792,6 +790,12 @@ func judge(c *vlib.Check, scs []*Scenario, kids []*child, hists []*history, st *
 		for _, rpt := range k.raceReports() {
 			nrace++
 			key, what := classifyRace(rpt)
+			if strings.Contains(rpt, "newMultipartResponseAggregator.func1") && strings.Contains(rpt, "(*multipartResponseAggregator).flush") && diedOfUnencodable(k) {
+				// Stream.tla: MMDoneFlush with FailIn (recovered), then MMTick, MMFlushTick -> crashed: the ticker goroutine took
+				// a tick instead of `done`, found the payload that cannot be encoded still pending and wrote to the
+				// ResponseWriter after the handler had returned - an instant before the panic that killed this process
+				key, what = keyMMCrash, "the aggregator's ticker goroutine flushing the still pending unencodable payload after the handler returned ("+what+")"
+			}
 			if seen[key+what] {
 				continue
 			}
@@ -801,6 +805,18 @@ func judge(c *vlib.Check, scs []*Scenario, kids []*child, hists []*history, st *
 	}
 	c.Set("race_reports", nrace)
 
+	// (decided only now, when every verdict of the run is known: a broken tree may well be the reason)
+	if onePs > 0 && handoffs == 0 && c.Violations() == 0 {
+		vlib.Infra("vacuous: in none of the one-processor slow-flush pairs was the parked keepAlive goroutine handed the mutex at the end of the second section (after_hold shows no immediate ping) - the forced schedule did not happen")
+	}
+	// a gate that was never reached decides nothing; when the run found violations it is most likely their
+	// consequence (the call the gate waits for is no longer made) and must not turn the verdict into exit 2
+	if len(unreached) > 0 {
+		c.Set("gate_scenarios_not_reached", unreached)
+		if c.Violations() == 0 {
+			vlib.Infra("%s", strings.Join(unreached, "; "))
+		}
+	}
 	phaseEvidence(c, scs, hists)
 	// non-vacuity of the run itself
 	if os.Getenv("VERIF_REPLAY") == "" && c.Violations() == 0 {
@@ -1160,4 +1176,16 @@ func withHistory(s *Scenario, hists []*history) *Scenario {
 		}
 	}
 	return &cp
+}
+
+// diedOfUnencodable: did an incarnation of this child die of the aggregator's ticker goroutine
+// meeting a payload that cannot be encoded (keyMMCrash)?
+func diedOfUnencodable(k *child) bool {
+	for _, se := range k.crashes {
+		if strings.Contains(se, "panic:") && strings.Contains(se, "newMultipartResponseAggregator.func1") &&
+			(strings.Contains(se, "transport.writeJson") || strings.Contains(se, "transport.writeIncrementalJson")) {
+			return true
+		}
+	}
+	return false
 }
